@@ -95,6 +95,11 @@ theorem frame_fwdSettle {s s' : St} {p r} (h : fwdSettle s p r = some s') : DFra
       · cases h1; exact DFrame.refl s
       · exact frame_fwdRefundFunds h1
 
+theorem sendTransfer_ok' {s s' : St} {a c d amt} (h : sendTransfer s a c d amt = .ok s') : sendOpen s a c d amt = .ok s' := by
+  unfold sendTransfer at h; split at h
+  · cases h
+  · exact h
+
 theorem frame_icsRefund {s s' : St} {p} (h : icsRefund s p = some s') : DFrame s s' := by
   unfold icsRefund at h
   split at h
@@ -118,6 +123,19 @@ theorem frame_eibcOnRefund {s s' : St} {p} (h : eibcOnRefund s p = .ok s') : DFr
   · split at h
     · cases h
     · cases h; exact frame_setOrder s _
+
+theorem eibcRefundHandler_ok {s s' : St} {p} (h : eibcRefundHandler s p = .ok s') : eibcOnRefund s p = .ok s' := by
+  unfold eibcRefundHandler at h
+  split at h
+  · cases h
+  · exact h
+
+theorem sendBlk_ok {s s' : St} {a c d amt} (h : sendBlk s a c d amt = .ok s') :
+    ∃ s1, sendOpen s a c d amt = .ok s1 ∧ s' = markBlk s1 c (getNextSeq s c) := by
+  unfold sendBlk at h
+  split at h
+  · rename_i s1 hs; cases h; exact ⟨s1, sendTransfer_ok' hs, rfl⟩
+  · cases h
 
 theorem frame_afterPacketStatusUpdated (s : St) (a b : Bytes) (st : Status) : DFrame s (afterPacketStatusUpdated s a b st) := by
   unfold afterPacketStatusUpdated
